@@ -1179,6 +1179,35 @@ pub fn sql(cx: &mut Raw) {
     for t in [T::Match { e: Box::new(id("a")), cases: vec![(Pat::Any, lit(V::Int(1)))] }, T::FStr(vec![Seg::Lit("a".into()), Seg::Expr(id("x"))]), lit(V::Bytes(vec![1])), bin("+", lit(V::Bytes(vec![1])), id("a"))] {
         sql_record(cx, &t);
     }
+    // ... in every position of a translatable construct: the whole expression has no translation
+    let unsupported: Vec<T> = vec![lit(V::Bytes(vec![120])), T::FStr(vec![Seg::Expr(id("x"))]), T::Match { e: Box::new(id("a")), cases: vec![(Pat::Any, lit(V::Int(1)))] }];
+    for u in unsupported.iter() {
+        let u = || u.clone();
+        let one = || lit(V::Int(1));
+        for t in [
+            T::List(vec![one(), u(), lit(V::Int(2))]),
+            T::List(vec![u()]),
+            T::Map(vec![(lit(V::Str("k".into())), u())]),
+            T::Map(vec![(u(), one())]),
+            call("f", vec![one(), u()]),
+            mcall(id("x"), "f", vec![u()]),
+            mcall(u(), "f", vec![one()]),
+            bin("+", one(), u()),
+            bin("||", u(), id("a")),
+            tern(id("a"), u(), one()),
+            tern(id("a"), one(), u()),
+            tern(u(), one(), one()),
+            idx(id("a"), u()),
+            idx(u(), one()),
+            sel(u(), "f"),
+            un('!', 1, u()),
+            T::Paren(Box::new(u())),
+            T::List(vec![T::List(vec![one(), u()])]),
+            bin("in", one(), T::List(vec![u()])),
+        ] {
+            sql_record(cx, &t);
+        }
+    }
     for i in 0..cx.n {
         let d = 1 + (i % 3) as u32;
         let t = gen(&mut cx.rng, d, &atom);
